@@ -50,7 +50,11 @@ def piece(rng, tr, conflict=False):
         c = rng.choice(opts)
         if c == 'Cp':
             i = rng.randrange(len(p['Cps']))
-            p['Cps'][i] = round(p['Cps'][i] + rng.choice([0.5, -1.0, 1e-6]), 7)
+            if rng.random() < 0.3:
+                # a relative difference far below any "close enough" tolerance is still a different value
+                p['Cps'][i] = p['Cps'][i] * (1 + rng.choice([3e-10, -2e-11, 5e-13])) if p['Cps'][i] else 1e-12
+            else:
+                p['Cps'][i] = round(p['Cps'][i] + rng.choice([0.5, -1.0, 1e-6]), 7)
         else:
             p[c] = round(p[c] + rng.choice([1.0, -0.25, 1e-6]), 7)
         p['conflict'] = c
@@ -284,9 +288,16 @@ def gen_lib_updates(ctx, idx):
     root = os.path.join(vlib.WORK, 'c13_upd_%d' % idx)
     files = {'target.yaml': ([(other, piece(rng, tro))], []), 'src1.yaml': ([(g, piece(rng, tr))], []), 'src2.yaml': ([(g, piece(rng, tr))], []),
              'src3.yaml': ([(g, piece(rng, tr)), (other, piece(rng, tro))], [])}
+    if idx % 2:
+        # the target already has a piece of the group the sources complete (an overwriting update must still keep what only the target has)
+        files['target.yaml'] = ([(other, piece(rng, tro)), (g, piece(rng, tr))], [])
     write_tree(root, files, 'target.yaml')
     names = ['target.yaml'] + rng.sample(['src1.yaml', 'src2.yaml', 'src3.yaml'], rng.choice([2, 3]))
-    return {'op': 'lib_updates', 'paths': [os.path.join(root, n) for n in names], 'overwrite': rng.random() < 0.3}
+    pieces = {}
+    for n in names:
+        for gg, p in files[n][0]:
+            pieces.setdefault(gg, []).append(p)
+    return {'op': 'lib_updates', 'paths': [os.path.join(root, n) for n in names], 'overwrite': rng.random() < 0.4, 'pieces': pieces}
 
 
 def file_lit(files, name):
@@ -322,6 +333,25 @@ def run(ctx):
         elif r['changed']:
             ctx.violate('update-changes-source', 'GroupLibrary.Update changed a library it was only reading from', job, 'sources unchanged',
                         {'changed_sources': r['changed'], 'excs': r['excs']})
+        else:
+            # all pieces of a group come from one truth (no conflicts): whatever the overwrite flag, nothing may be rejected and the
+            # target ends with the UNION of the data (table points, H and S presence, widest range)
+            jj = {k: v for k, v in job.items() if k != 'pieces'}
+            if any(r['excs']):
+                ctx.violate('libupd-rejected', 'GroupLibrary.Update rejected data that does not conflict', jj, 'merged', r['excs'])
+                continue
+            for gg, ps in job['pieces'].items():
+                got = r['target'].get(gg)
+                wantT = sorted(set(T for p in ps for T in p['Ts']))
+                wantH, wantS = any(p['H'] is not None for p in ps), any(p['S'] is not None for p in ps)
+                rs_ = [p['range'] for p in ps if p['range']]
+                wantR = [min(x[0] for x in rs_), max(x[1] for x in rs_)] if rs_ else None
+                ok = got is not None and sorted(t for t, _ in got['tab']) == wantT and (got['H'] is not None) == wantH \
+                    and (got['S'] is not None) == wantS and got['range'] == wantR
+                if not ok:
+                    ctx.violate('libupd-union:%s' % ('ow' if job['overwrite'] else 'plain'),
+                                'after GroupLibrary.Update the target does not hold the union of the data of a group', dict(jj, group=gg),
+                                {'Ts': wantT, 'H': wantH, 'S': wantS, 'range': wantR}, got)
     hist = {'sequences': len(seqs), 'trees': len(groups_of), 'tree_variants': len(trees), 'steps': 0, 'rejected': 0, 'tree_kinds': {}}
     for i, (job, r) in enumerate(zip(seqs, rs)):
         if 'steps' not in r:
